@@ -1366,31 +1366,34 @@ impl Tera {
         for name in names {
             let t = &self.templates[name];
             out.push(format!(
-                "{{\"tpl\":{},\"kind\":\"main\",\"h\":{},\"code\":{}}}",
+                "{{\"tpl\":{},\"kind\":\"main\",\"h\":{},\"code\":{},\"pre\":{}}}",
                 json_str(name),
                 t.chunk.verif_hash(),
-                t.chunk.verif_json()
+                t.chunk.verif_json(),
+                t.chunk.verif_json_pre()
             ));
             let mut blocks: Vec<&String> = t.blocks.keys().collect();
             blocks.sort();
             for b in blocks {
                 out.push(format!(
-                    "{{\"tpl\":{},\"kind\":{},\"h\":{},\"code\":{}}}",
+                    "{{\"tpl\":{},\"kind\":{},\"h\":{},\"code\":{},\"pre\":{}}}",
                     json_str(name),
                     json_str(&format!("block:{b}")),
                     t.blocks[b].verif_hash(),
-                    t.blocks[b].verif_json()
+                    t.blocks[b].verif_json(),
+                    t.blocks[b].verif_json_pre()
                 ));
             }
             let mut comps: Vec<&String> = t.components.keys().collect();
             comps.sort();
             for c in comps {
                 out.push(format!(
-                    "{{\"tpl\":{},\"kind\":{},\"h\":{},\"code\":{}}}",
+                    "{{\"tpl\":{},\"kind\":{},\"h\":{},\"code\":{},\"pre\":{}}}",
                     json_str(name),
                     json_str(&format!("component:{c}")),
                     t.components[c].1.verif_hash(),
-                    t.components[c].1.verif_json()
+                    t.components[c].1.verif_json(),
+                    t.components[c].1.verif_json_pre()
                 ));
             }
         }
@@ -1402,31 +1405,34 @@ impl Tera {
         use crate::verif::json_str;
         let t = Template::new(ONE_OFF_TEMPLATE_NAME, input, None, self.delimiters.clone())?;
         let mut out = vec![format!(
-            "{{\"tpl\":{},\"kind\":\"main\",\"h\":{},\"code\":{}}}",
+            "{{\"tpl\":{},\"kind\":\"main\",\"h\":{},\"code\":{},\"pre\":{}}}",
             json_str(&t.name),
             t.chunk.verif_hash(),
-            t.chunk.verif_json()
+            t.chunk.verif_json(),
+            t.chunk.verif_json_pre()
         )];
         let mut blocks: Vec<&String> = t.blocks.keys().collect();
         blocks.sort();
         for b in blocks {
             out.push(format!(
-                "{{\"tpl\":{},\"kind\":{},\"h\":{},\"code\":{}}}",
+                "{{\"tpl\":{},\"kind\":{},\"h\":{},\"code\":{},\"pre\":{}}}",
                 json_str(&t.name),
                 json_str(&format!("block:{b}")),
                 t.blocks[b].verif_hash(),
-                t.blocks[b].verif_json()
+                t.blocks[b].verif_json(),
+                t.blocks[b].verif_json_pre()
             ));
         }
         let mut comps: Vec<&String> = t.components.keys().collect();
         comps.sort();
         for c in comps {
             out.push(format!(
-                "{{\"tpl\":{},\"kind\":{},\"h\":{},\"code\":{}}}",
+                "{{\"tpl\":{},\"kind\":{},\"h\":{},\"code\":{},\"pre\":{}}}",
                 json_str(&t.name),
                 json_str(&format!("component:{c}")),
                 t.components[c].1.verif_hash(),
-                t.components[c].1.verif_json()
+                t.components[c].1.verif_json(),
+                t.components[c].1.verif_json_pre()
             ));
         }
         Ok(out)
